@@ -220,11 +220,13 @@ fn main() {
                     _ => panic!("label"),
                 }
             };
+            // every fourth file is moved to the top of the address space: the INIT record then ends exactly at 2^64 and is a record like any other
+            let shift: u64 = if n % 4 == 1 { 0xffff_ffff_ffff_fe00 } else { 0 };
             let mut sym = String::from("MODULE Linux x86_64 000 m\n");
             for (i, r) in c["recs"].as_array().unwrap().iter().enumerate() {
                 let pairs: Vec<String> = r["pairs"].as_array().unwrap().iter()
                     .map(|p| format!("{} {}", label(p["l"].as_str().unwrap()), pool(p["e"].as_str().unwrap()))).collect();
-                let addr = r["addr"].as_u64().unwrap();
+                let addr = r["addr"].as_u64().unwrap().wrapping_add(shift);
                 if i == 0 {
                     sym.push_str(&format!("STACK CFI INIT {:x} 100 {}\n", addr, pairs.join(" ")));
                 } else {
@@ -233,10 +235,11 @@ fn main() {
             }
             // a second INIT record that starts on the last byte of the first one overlaps it and is dropped: nothing changes for any look-up
             if n % 4 == 0 { sym.push_str("STACK CFI INIT 1ff 20 .cfa: $rsp 800 + .ra: .cfa 8 - ^\n"); }
-            let base = bases[n % 2];
+            let base = if shift != 0 { 0 } else { bases[n % 2] };
             let mut any_ok = false;
             for e in c["exp"].as_array().unwrap() {
-                let lk = e["lk"].as_u64().unwrap();
+                if shift != 0 && e["lk"].as_u64().unwrap() >= 512 { continue; }      // past the end of the address space
+                let lk = e["lk"].as_u64().unwrap().wrapping_add(shift);
                 let out = &e["out"];
                 if out["why"].as_str() == Some("unspecified") {
                     // two deltas with the same address whose relative order changes the result: not documented
